@@ -25,13 +25,19 @@ def SL(a, lo, hi):
     return {"k": "slice", "a": a, "lo": lo, "hi": hi}
 
 
+def AS(d, s):
+    # bw: width of the sliced base (the spec's normalisation needs it; it is the width of d's argument)
+    return {"k": "assign", "d": d, "s": s, "bw": width(d["a"]) if d["k"] == "slice" else width(d)}
+
+
 def small_pool():
     a, one, one2 = ID("n_a", 8), INT(1, 8), INT(257, 8)
     plus = OP("+", a, one)
     sl = SL(plus, 0, 4)
     return [a, one, one2, INT(1, 16), plus, OP("+", a, one2), OP("+", one, a), sl, {"k": "compose", "a": [sl, sl]},
             {"k": "cond", "c": a, "t": plus, "f": one}, {"k": "mem", "p": a, "w": 16}, OP("==", a, one2), ID("n_sq", 8), INT(255, 8),
-            OP("-", INT(-1 % 512, 8))]
+            OP("-", INT(-1 % 512, 8)),
+            AS(SL(a, 2, 6), sl), AS(a, {"k": "compose", "a": [SL(a, 0, 2), sl, SL(a, 6, 8)]}), AS(SL(a, 0, 8), plus), AS(a, plus)]
 
 
 def big_pool(rng):
@@ -61,8 +67,17 @@ def big_pool(rng):
             pool.append({"k": "cond", "c": x, "t": y, "f": x})
         else:
             pool.append({"k": "mem", "p": x, "w": rng.choice([8, 16, 32, 64])})
+    ids8 = [k for k in leaves8 if k["k"] == "id"]
+    for _ in range(12):
+        base = rng.choice([k for k in pool if k["k"] == "id" and k["w"] in (8, 64)])
+        lo = rng.randrange(0, base["w"] - 1)
+        hi = rng.randrange(lo + 1, base["w"] + 1)
+        src = rng.choice([k for k in pool if k["k"] == "id" and k["w"] == 64])
+        pool.append(AS(SL(base, lo, hi), SL(src, 0, hi - lo)))
+        pool.append(AS(base, ID(rng.choice(sorted(NAMES)), base["w"])))
+    operands = [k for k in pool[-64:] if k["k"] != "assign"]
     for _ in range(25):
-        x, y = rng.choice(pool[-40:]), rng.choice(pool[-40:])
+        x, y = rng.choice(operands), rng.choice(operands)
         wx = width(x)
         if wx == width(y):
             pool.append(OP(rng.choice(["+", "^"]), x, y))
@@ -81,6 +96,8 @@ def width(k):
         return width(k["t"])
     if t == "compose":
         return sum(width(x) for x in k["a"])
+    if t == "assign":
+        return k["bw"]
     if k["op"] in ("==", "<u", "<s", "parity"):
         return 1
     return width(k["a"][0])
@@ -101,6 +118,8 @@ def construct(k):
         return m.ExprCond(construct(k["c"]), construct(k["t"]), construct(k["f"]))
     if t == "compose":
         return m.ExprCompose(*[construct(x) for x in k["a"]])
+    if t == "assign":
+        return m.ExprAssign(construct(k["d"]), construct(k["s"]))
     return m.ExprOp(k["op"], *[construct(x) for x in k["a"]])
 
 
@@ -165,7 +184,13 @@ class Adapter(object):
 
 def gen_op(rng, h, acfg):
     n = len(acfg["keys"])
-    built = [i + 1 for i, k in enumerate(h.keys) if Adapter().token(h, construct(k), register=False) >= 0]
+    built = []
+    for i, k in enumerate(h.keys):
+        try:
+            if Adapter().token(h, construct(k), register=False) >= 0:
+                built.append(i + 1)
+        except Exception:
+            pass            # reported by the event that builds it
     if built and rng.random() < 0.55:
         return {"op": "Identity", "kind": rng.choice(KINDS), "i": rng.choice(built)}
     return {"op": "Build", "i": rng.randrange(1, n + 1)}
